@@ -9,9 +9,12 @@
    w_err / w_stats = Write's return values, w_delays = the delay slept before each retry.
    "seen" = map fst (firstn (length (w_reqs m)) script) = the server's answers to the received requests.
    MaxRetries semantics (backoff.go:53): > 0 bounds the number of retries, 0 means NO limit, < 0 no retry. *)
+From Coq Require Import Strings.String.
 From Coq Require Import ZArith List Bool.
 From Verif Require Import Base.Str Model.RemoteWrite Proofs.C20_proofs.
 Import ListNotations.
+Open Scope string_scope.
+Open Scope list_scope.
 Open Scope Z_scope.
 
 (* ---------- client: retries ---------- *)
